@@ -29,3 +29,19 @@ func VerifSilentLocks(s *SQLiteStore) []any {
 
 // VerifCheckpoint runs the store's own passive WAL checkpoint (what the background loop does once a minute).
 func VerifCheckpoint(s *SQLiteStore) error { return s.checkpointPassive() }
+
+// Scaled thresholds (see tools/verifgen "scales"): MemoryStore compacts its dequeue-order list only once it holds
+// 1024 entries and more than 4 per stored item - unreachable for any bounded history. verifgen replaces the two literals
+// by these variables (defaults = the literals); a harness lowers them to bring the compaction into the explored space.
+var (
+	verifCompactMin    = 1024
+	verifCompactFactor = 4
+	verifScaled        = map[string]bool{}
+)
+
+// VerifSetCompaction sets the order-list compaction thresholds and reports whether both literals were found and
+// replaced in this build (false: the code changed, the thresholds are the code's own).
+func VerifSetCompaction(min, factor int) bool {
+	verifCompactMin, verifCompactFactor = min, factor
+	return verifScaled["memory-compaction-min"] && verifScaled["memory-compaction-factor"]
+}
